@@ -1010,9 +1010,32 @@ func init() {
 				caller = "rand." + m.stack[len(m.stack)-1]
 			}
 			m.writeBack(s.Arr, &OpaqueBytes{T: m.freshBytes(caller, n), N: n})
+			k, _ := m.ghost["cryptorand.reads"].(int)
+			m.ghost["cryptorand.reads"] = k + 1
 			return TupleV{smt.BVC(64, uint64(n)), &IfaceV{}}
 		}
 		return TupleV{smt.BVC(64, 0), &IfaceV{}}
+	}
+	// math/rand.Read: bytes of the process-wide pseudo-random stream - arbitrary, but not a draw from the
+	// crypto source (zzverif.SecretDraws does not count it)
+	I["math/rand.Read"] = func(m *Machine, fn *ssa.Function, args []Value) Value {
+		s := args[0].(*SliceV)
+		if s == nil {
+			return TupleV{smt.BVC(64, 0), &IfaceV{}}
+		}
+		n := s.Len
+		if ob, ok := s.Arr.V.(*OpaqueBytes); ok {
+			n = ob.N
+		}
+		if a, ok := s.Arr.V.(*ArrayV); s.Off != 0 || (ok && len(a.E) != n) {
+			panic(unsupported("math/rand.Read into partial slice"))
+		}
+		m.writeBack(s.Arr, &OpaqueBytes{T: m.freshBytes("mathrand", n), N: n})
+		return TupleV{smt.BVC(64, uint64(n)), &IfaceV{}}
+	}
+	I["zzverif.SecretDraws"] = func(m *Machine, fn *ssa.Function, args []Value) Value {
+		k, _ := m.ghost["cryptorand.reads"].(int)
+		return smt.BVC(64, uint64(k))
 	}
 	I["crypto/sha256.Sum256"] = func(m *Machine, fn *ssa.Function, args []Value) Value {
 		t, _ := m.sliceBytesTerm(args[0])
